@@ -6,6 +6,7 @@ from . import harness as H
 from . import ops as O
 
 MODES = ("plain", "ign", "g1", "g0")
+NESTED_MODES = ("n00", "n01", "n10", "n11")      # two nested secret guards (outer, inner)
 
 
 def D(n):
@@ -35,6 +36,8 @@ def make_operand(kind, v):
         return v
     if kind == "B":
         return H.boolean.PrivValBool(v)
+    if kind == "F":
+        return H.fixedpoint.PrivValFxp(v, False)       # v is the representation integer
     if kind == "P":
         return H.rt.PubVal(v)
     if kind == "C":
@@ -103,7 +106,7 @@ def execute(prog, vals, mode, n, want_trace=False, p=None, want_steps=False):
     """Run one program on one input vector in one mode from a clean state."""
     if p is not None and H.R.p != p:
         H.R.p = p
-    H.reset(bitlength=n)
+    H.reset(bitlength=n, resolution=1)
     rt = H.rt
     out = Outcome()
     out.unsat, out.mism, out.calls = [], [], 0
@@ -127,6 +130,10 @@ def execute(prog, vals, mode, n, want_trace=False, p=None, want_steps=False):
             g = rt.PrivVal(1 if mode == "g1" else 0)
             nv0, nc0 = len(H.R.vars), len(H.R.cons)
             res = rt.guarded(g)(lambda: _apply(expr, operands, out))()
+        elif mode in NESTED_MODES:
+            go, gi = rt.PrivVal(int(mode[1])), rt.PrivVal(int(mode[2]))
+            nv0, nc0 = len(H.R.vars), len(H.R.cons)
+            res = rt.guarded(go)(lambda: rt.guarded(gi)(lambda: _apply(expr, operands, out))())()
         else:
             raise ValueError(mode)
         out.status, out.exc = "ok", None
@@ -147,8 +154,28 @@ def execute(prog, vals, mode, n, want_trace=False, p=None, want_steps=False):
 # ------------------------------------------------------------------------------------------
 # program families
 
-def depth1_programs(include_bool=True, include_assert=True):
+FXP_BINARY = ["add", "sub", "mul", "truediv", "floordiv", "mod", "lt", "le", "eq", "ne", "gt", "ge"]
+
+
+def fxp_programs():
+    """Fixed-point operands (resolution 1) in every position; values are representation integers."""
     progs = []
+    for name in FXP_BINARY:
+        for kinds in (("F", "F"), ("F", "S"), ("S", "F"), ("F", "K"), ("K", "F")):
+            progs.append({"expr": ("op", name, ("in", 0), ("in", 1)), "kinds": list(kinds)})
+    for name in ("neg", "abs", "check_zero", "check_positive"):
+        progs.append({"expr": ("op", name, ("in", 0)), "kinds": ["F"]})
+    for kinds in (("B", "F", "F"), ("B", "F", "S"), ("B", "K", "F")):
+        progs.append({"expr": ("op", "if_then_else", ("in", 0), ("in", 1), ("in", 2)), "kinds": list(kinds)})
+    for name in ("assert_lt", "assert_eq", "assert_ge"):
+        progs.append({"expr": ("op", name, ("in", 0), ("in", 1)), "kinds": ["F", "F"]})
+    return progs
+
+
+def depth1_programs(include_bool=True, include_assert=True, include_fxp=False):
+    progs = []
+    if include_fxp:
+        progs += fxp_programs()
     for name in O.BINARY_INT:
         for kinds in (("S", "S"), ("S", "K"), ("K", "S")):
             progs.append({"expr": ("op", name, ("in", 0), ("in", 1)), "kinds": list(kinds)})
